@@ -1547,6 +1547,74 @@ Proof.
   rewrite Hoth by auto. rewrite Hent_src. unfold es'. rewrite T3, T4. reflexivity.
 Qed.
 
+(* ------------------------------------------------------------------ the handler cannot fail *)
+
+(* With the second TLSF invariant (free lists consistent) in WF, every metadata call the handler
+   makes succeeds: Free of a live region, SetAllocationUserData of a live region. *)
+Lemma free_slot_succeeds st s e : WF st -> entry st s = Some e -> exists st', free_slot st s = (st', ROk).
+Proof.
+  intros HW He. destruct (wf_own _ HW _ _ He) as ((b & (t & Hf & Hin & Ho) & _) & _).
+  destruct (wb_tinv _ (wf_b _ HW) _ _ Hf) as (HT & _ & HI2).
+  destruct (tlsf_free_live_succeeds t b HT HI2 Hin) as (t' & Hst & _).
+  cbn [step] in Hst. rewrite Ho in Hst. unfold free_slot. rewrite He, Hf.
+  destruct (tlsf_free t (u_off e)) as [t1| |]; [eexists; reflexivity|injection Hst as _ H; discriminate|injection Hst as _ H; discriminate].
+Qed.
+
+Lemma set_ud_succeeds st id off tag b :
+  WFB (d_blocks st) -> holds st id off b -> exists st', set_ud st id off tag = (st', ROk).
+Proof.
+  intros HB (t & Hf & Hin & Ho). destruct (wb_tinv _ HB _ _ Hf) as (([Hgeo _ _ _] & _) & _).
+  destruct (live_in_chain _ _ Hin) as (Hc & Hfree).
+  pose proof (find_blk_unique _ _ _ (g_chain _ Hgeo) Hc) as Hfb. rewrite Ho in Hfb.
+  unfold set_ud, set_user_data. rewrite Hf, Hfb, Hfree. eexists. reflexivity.
+Qed.
+
+Lemma handler_move_total st m d :
+  WF st -> reserved st m -> (d = 0 \/ d = 1 \/ d = 2) -> exists st', handler_move st m d = (st', ROk).
+Proof.
+  intros HW ((es & S1 & S2 & S3 & S4 & S5) & (et & T1 & T2 & T3 & T4 & T5)) Hd.
+  assert (Hne : m_src m <> m_tmp m).
+  { intros Heq. rewrite Heq in S1. rewrite S1 in T1. injection T1 as <-. congruence. }
+  unfold handler_move. rewrite S1, T1.
+  destruct (d =? 1) eqn:E1; [eapply free_slot_succeeds; eauto|].
+  destruct (d =? 2) eqn:E2.
+  { destruct (free_slot_succeeds _ _ _ HW S1) as (st1 & Hf1). rewrite Hf1. unfold bind_k. cbn [fst snd].
+    destruct (free_slot_ok _ _ _ HW Hf1) as (HW1 & _ & Hoth & _).
+    eapply free_slot_succeeds; [exact HW1|]. rewrite Hoth by auto. exact T1. }
+  assert (d = 0) by (apply Z.eqb_neq in E1, E2; lia). subst d. clear E1 E2 Hd.
+  destruct (wf_own _ HW _ _ S1) as ((b1 & Hh1 & _) & _).
+  destruct (wf_own _ HW _ _ T1) as ((b2 & Hh2 & _) & _).
+  destruct (set_ud_succeeds st (u_blk es) (u_off es) (Some (Z.of_nat (m_tmp m))) b1 (wf_b _ HW) Hh1) as (st1 & Hu1).
+  rewrite Hu1. unfold bind_k at 1. cbn [fst snd].
+  destruct (set_ud_ok _ _ _ _ _ (wf_b _ HW) Hu1) as (b1' & Hh1' & HB1 & Hst1 & Hids1 & Hc1).
+  set (es' := mkU (u_blk et) (u_off et) (u_size es) (u_align es) (u_kind es) (u_tag es) (u_temp es)) in *.
+  set (et' := mkU (u_blk es) (u_off es) (u_size et) (u_align et) (u_kind et) (u_tag et) (u_temp et)) in *.
+  set (st2 := set_entry (set_entry st1 (m_src m) (Some es')) (m_tmp m) (Some et')) in *.
+  assert (HL : ~ (u_blk et = u_blk es /\ u_off et = u_off es)).
+  { intros (A & B). apply Hne. eapply (wf_inj _ HW); eauto. }
+  assert (Hh2' : holds st2 (u_blk et) (u_off et) b2).
+  { change (holds st1 (u_blk et) (u_off et) b2). apply Hc1. right. split; [exact Hh2|exact HL]. }
+  assert (HB2 : WFB (d_blocks st2)) by exact HB1.
+  destruct (set_ud_succeeds st2 (u_blk es') (u_off es') (Some (Z.of_nat (m_src m))) b2 HB2 Hh2') as (st3 & Hu3).
+  rewrite Hu3. unfold bind_k. cbn [fst snd].
+  destruct (set_ud_ok _ _ _ _ _ HB2 Hu3) as (b2' & Hh2'' & HB3 & Hst3 & Hids3 & Hc3).
+  cbn [es' u_blk u_off] in Hh2'', Hc3.
+  assert (Hh2o : holds st (u_blk et) (u_off et) b2').
+  { change (holds st1 (u_blk et) (u_off et) b2') in Hh2''. apply Hc1 in Hh2''.
+    destruct Hh2'' as [(A & B & _)|(Hh & _)]; [exfalso; apply HL; auto|exact Hh]. }
+  assert (HW3 : WF st3).
+  { rewrite Hst3. unfold st2. rewrite Hst1.
+    change (WF (set_blocks (set_entry (set_entry st (m_src m) (Some es')) (m_tmp m) (Some et')) (d_blocks st3))).
+    eapply (wf_exchange st (d_blocks st1) (d_blocks st3) (m_src m) (m_tmp m) es et b1' b2'); eauto; try congruence. }
+  assert (Hlt2 : (m_tmp m < length (d_table st))%nat) by (eapply entry_lt; eauto).
+  assert (Hent_tmp : entry st3 (m_tmp m) = Some et').
+  { unfold entry. rewrite Hst3. cbn [set_blocks d_table]. unfold st2. cbn [set_entry set_table d_table].
+    rewrite nth_update_same by (rewrite update_nth_length, Hst1; exact Hlt2).
+    destruct (nth_error (update_nth (m_src m) (fun _ => Some es') (d_table st1)) (m_tmp m)) eqn:En; [reflexivity|].
+    apply nth_error_None in En. rewrite update_nth_length, Hst1 in En. cbn in En. lia. }
+  eapply free_slot_succeeds; eauto.
+Qed.
+
 (* ------------------------------------------------------------------ the per-move loop *)
 
 Lemma norm_decision_cases d : norm_decision d = 0 \/ norm_decision d = 1 \/ norm_decision d = 2.
@@ -1694,6 +1762,46 @@ Proof.
     + intros H; injection H as _ H; discriminate.
 Qed.
 
+(* the per-move loop never panics and never records a handler error *)
+Lemma complete_moves_total ms : forall cp ds,
+  WF (cp_st cp) -> Forall (reserved (cp_st cp)) ms -> NoDup (map m_src ms ++ map m_tmp ms) ->
+  exists cp', complete_moves cp ms ds = (cp', false) /\ cp_err cp' = cp_err cp.
+Proof.
+  induction ms as [|m r IH]; intros cp ds HW Hres Hnd; cbn [complete_moves].
+  - exists cp. auto.
+  - destruct (blocks_stats (d_blocks (cp_st cp))) as [pc pb].
+    set (d := norm_decision (hd 0 ds)).
+    inversion Hres as [|? ? Hrm Hrr]; subst. cbn [map] in Hnd.
+    destruct (handler_move_total _ _ d HW Hrm (norm_decision_cases _)) as (st1 & Hh). rewrite Hh.
+    destruct (blocks_stats (d_blocks st1)) as [ac ab].
+    destruct (handler_move_spec _ _ _ _ HW Hrm (norm_decision_cases _) Hh) as (HW1 & _ & _ & Hoth & _).
+    assert (Hnd_r : NoDup (map m_src r ++ map m_tmp r)).
+    { inversion Hnd as [|? ? _ Hn]; subst. apply NoDup_remove_1 in Hn. exact Hn. }
+    assert (Hsrc_fresh : ~ In (m_src m) (map m_src r) /\ ~ In (m_src m) (map m_tmp r)).
+    { inversion Hnd as [|? ? Hn _]; subst. split; intros Hin; apply Hn.
+      - apply in_app_l. exact Hin.
+      - apply in_app_r. right. exact Hin. }
+    assert (Htmp_fresh : ~ In (m_tmp m) (map m_src r) /\ ~ In (m_tmp m) (map m_tmp r)).
+    { inversion Hnd as [|? ? _ Hn]; subst. apply NoDup_remove_2 in Hn. split; intros Hin; apply Hn.
+      - apply in_app_l. exact Hin.
+      - apply in_app_r. exact Hin. }
+    match goal with |- exists cp', complete_moves ?x r (tl ds) = _ /\ _ => set (cp1 := x) end.
+    assert (Hres1 : Forall (reserved (cp_st cp1)) r).
+    { cbn [cp1 cp_st]. apply Forall_forall. intros m' Hm'. rewrite Forall_forall in Hrr. specialize (Hrr _ Hm').
+      assert (Hs' : m_src m' <> m_src m /\ m_src m' <> m_tmp m).
+      { split; intros Heq.
+        - apply (proj1 Hsrc_fresh). rewrite <- Heq. apply in_map. exact Hm'.
+        - apply (proj1 Htmp_fresh). rewrite <- Heq. apply in_map. exact Hm'. }
+      assert (Ht' : m_tmp m' <> m_src m /\ m_tmp m' <> m_tmp m).
+      { split; intros Heq.
+        - apply (proj2 Hsrc_fresh). rewrite <- Heq. apply in_map. exact Hm'.
+        - apply (proj2 Htmp_fresh). rewrite <- Heq. apply in_map. exact Hm'. }
+      destruct Hrr as ((es & S1 & S) & (et & T1 & T)). split.
+      - exists es. rewrite Hoth by tauto. auto.
+      - exists et. rewrite Hoth by tauto. auto. }
+    destruct (IH cp1 (tl ds) HW1 Hres1 Hnd_r) as (cp' & E & Herr). exists cp'. split; [exact E|exact Herr].
+Qed.
+
 (* ------------------------------------------------------------------ swapImmovableBlocks only permutes the list *)
 
 From Coq Require Import Permutation.
@@ -1787,7 +1895,14 @@ Section CompleteTheorems.
   Let r := complete_pass st c p ds ord.
   Let ms := c_moves c.
 
-  Hypothesis Hok : r_kind r = ROk.      (* every handler call succeeded *)
+  (* every handler call succeeds (second TLSF invariant): the pass completes without error *)
+  Lemma complete_pass_ok : r_kind r = ROk.
+  Proof.
+    unfold r, complete_pass. fold ms.
+    destruct (complete_moves_total ms (mkCP st p [] false) ds HW Hres Hnd) as (cp & E & Herr). rewrite E.
+    destruct (swap_all _ _ _ _) as [[bl immc] sws]. cbn [r_kind]. cbn [cp_err] in Herr. rewrite Herr. reflexivity.
+  Qed.
+
 
   Lemma complete_pass_inv :
     exists cp, complete_moves (mkCP st p [] false) ms ds = (cp, false) /\ cp_err cp = false /\
@@ -1796,6 +1911,7 @@ Section CompleteTheorems.
                c_moves (r_ctx r) = [] /\ c_algo (r_ctx r) = c_algo c /\
                (cp_imm cp = [] -> r_st r = cp_st cp /\ c_immovable (r_ctx r) = c_immovable c).
   Proof.
+    pose proof complete_pass_ok as Hok.
     unfold r, complete_pass in *. fold ms in Hok |- *.
     destruct (complete_moves (mkCP st p [] false) ms ds) as [cp pk] eqn:Hcm.
     destruct pk; [cbn in Hok; discriminate|].
@@ -1966,10 +2082,10 @@ Proof.
   destruct r as [| |w]; [| |discriminate].
   all: destruct (r_kind (complete_pass (cs_st cs) c1 (cs_pass cs) [] [])) eqn:Hk; try discriminate.
   all: intros H; injection H as <- <- <- <-.
-  all: pose proof (complete_pass_wf _ _ _ _ _ HWc Hres1 Hnd Hk) as (HW' & _ & _ & Hlen & Hmv).
-  all: pose proof (move_outcome _ _ _ _ _ HWc Hres1 Hnd Hk) as (Hout & Hun).
-  all: pose proof (stats_match _ _ _ _ _ HWc Hres1 Hnd Hk Hsa Hsb) as (Hst1 & Hst2).
-  all: pose proof (all_copy_no_swap _ _ _ _ _ HWc Hres1 Hnd Hk (copies_nil _)) as (Hids & _).
+  all: pose proof (complete_pass_wf _ _ (cs_pass cs) [] [] HWc Hres1 Hnd) as (HW' & _ & _ & Hlen & Hmv).
+  all: pose proof (move_outcome _ _ (cs_pass cs) [] [] HWc Hres1 Hnd) as (Hout & Hun).
+  all: pose proof (stats_match _ _ (cs_pass cs) [] [] HWc Hres1 Hnd Hsa Hsb) as (Hst1 & Hst2).
+  all: pose proof (all_copy_no_swap _ _ (cs_pass cs) [] [] HWc Hres1 Hnd (copies_nil _)) as (Hids & _).
   all: cbn [c1 c_moves] in *; rewrite copies_nil in Hst1, Hst2.
   all: pose proof (outcomes_all_copy _ _ _ Hout) as Hoc.
   all: (split; [exact HW'|]); (split; [exact Hmv|]).
@@ -2460,7 +2576,7 @@ Qed.
 
 Lemma complete_pass_progress st c p ds ord :
   WF st -> Forall (reserved st) (c_moves c) -> NoDup (map m_src (c_moves c) ++ map m_tmp (c_moves c)) ->
-  r_kind (complete_pass st c p ds ord) = ROk -> 0 <= c_immovable c ->
+  0 <= c_immovable c ->
   (forall m, In m (c_moves c) -> In (m_srcidx m, m_srcblk m) (indexed st) /\ c_immovable c <= m_srcidx m) ->
   let r := complete_pass st c p ds ord in
   zlen (d_blocks (r_st r)) = zlen (d_blocks st) /\
@@ -2468,8 +2584,8 @@ Lemma complete_pass_progress st c p ds ord :
   (has_ignore (c_moves c) ds = false ->
    c_immovable (r_ctx r) = c_immovable c /\ map fst (d_blocks (r_st r)) = map fst (d_blocks st)).
 Proof.
-  intros HW Hres Hnd Hok Himm Hsrc r.
-  destruct (complete_pass_inv st c p ds ord Hok) as (cp & Hcm & Herr & _ & Hperm & _ & _ & _ & _ & Hnil).
+  intros HW Hres Hnd Himm Hsrc r.
+  destruct (complete_pass_inv st c p ds ord HW Hres Hnd) as (cp & Hcm & Herr & _ & Hperm & _ & _ & _ & _ & Hnil).
   destruct (complete_moves_ok (c_moves c) (mkCP st p [] false) ds cp HW Hres Hnd Hcm Herr) as (_ & (F1 & _ & _) & _).
   destruct (complete_moves_imm (c_moves c) (mkCP st p [] false) ds cp Hcm Herr) as (I1 & _ & I3 & I4).
   cbn [cp_st cp_imm] in *.
@@ -2569,11 +2685,11 @@ Proof.
                (forall s, ~ In s (map m_src (cs_moves cs)) -> (s < length (d_table st))%nat -> entry (r_st rr) s = entry st s) /\
                (forall s e, (length (d_table st) <= s)%nat -> entry (r_st rr) s = Some e -> u_temp e = true))).
   { intros Hk rr.
-    pose proof (complete_pass_wf _ _ _ _ _ HWc Hres1 Hnd Hk) as (HW' & _ & _ & Hlen & Hmv).
-    pose proof (move_outcome _ _ _ _ _ HWc Hres1 Hnd Hk) as (Hout & Hun).
+    pose proof (complete_pass_wf _ _ (cs_pass cs) ds ord HWc Hres1 Hnd) as (HW' & _ & _ & Hlen & Hmv).
+    pose proof (move_outcome _ _ (cs_pass cs) ds ord HWc Hres1 Hnd) as (Hout & Hun).
     assert (Hsrc1 : forall m, In m (c_moves c1) -> In (m_srcidx m, m_srcblk m) (indexed (cs_st cs)) /\ c_immovable c1 <= m_srcidx m).
     { intros m Hm. cbn [c1 c_moves c_immovable] in *. rewrite Hixeq. split; [apply (Hfw m Hm)|apply (Hlo m Hm)]. }
-    pose proof (complete_pass_progress _ _ _ ds ord HWc Hres1 Hnd Hk Himm Hsrc1) as (P0 & P1 & P2).
+    pose proof (complete_pass_progress _ _ (cs_pass cs) ds ord HWc Hres1 Hnd Himm Hsrc1) as (P0 & P1 & P2).
     fold rr in HW', Hlen, Hmv, Hout, Hun, P0, P1, P2. cbn [c1 c_moves c_immovable] in *.
     split; [exact HW'|]. split; [exact Hmv|]. split; [rewrite P0; exact Hlenb|].
     split.
@@ -2754,9 +2870,6 @@ Record WInv (w : world) : Prop := mkWInv {
                                NoDup (map m_src (c_moves c) ++ map m_tmp (c_moves c)))
 }.
 
-(* a handler call that failed leaves the block list half-updated (the Go code carries on) *)
-Definition wout_ok (o : wout) : Prop := match o with OutEnd ROk _ => True | OutEnd _ _ => False | _ => True end.
-
 Lemma lim_ge0 v : 0 <= lim v.
 Proof. unfold lim, max_int. destruct (v <? 0) eqn:E; [lia|apply Z.ltb_ge in E; exact E]. Qed.
 
@@ -2775,7 +2888,7 @@ Proof.
 Qed.
 
 Theorem wstep_preserves w o :
-  WInv w -> wout_ok (snd (wstep w o)) -> w_dead (fst (wstep w o)) = false -> WInv (fst (wstep w o)).
+  WInv w -> w_dead (fst (wstep w o)) = false -> WInv (fst (wstep w o)).
 Proof.
   intros HWI. pose proof HWI as [HW Hctx]. unfold wstep. destruct (w_dead w) eqn:Hdead; [cbn; congruence|].
   destruct o as [id size align kind tag|slot|algo mb ma reuse| |ds ord|].
@@ -2787,7 +2900,7 @@ Proof.
       intros c Hc. destruct (Hctx c Hc) as (A & B & C). split; [exact A|]. split; [exact B|].
       intros Ho. destruct (C Ho) as (C1 & C2). split; [|exact C2].
       eapply Forall_impl; [|exact C1]. intros m. apply reserved_ext. exact Hext. }
-    destruct r; cbn [fst snd]; intros _ Hd;
+    destruct r; cbn [fst snd]; intros Hd;
       [exact Hgo|exact Hgo|exact Hgo|exact HWI|cbn in Hd; discriminate].
   - (* user free *)
     destruct (slot <? 0); [cbn; intros; exact HWI|].
@@ -2808,12 +2921,12 @@ Proof.
           { apply existsb_exists. exists m. split; [exact Hm|]. apply Nat.eqb_eq. auto. }
           congruence.
         + intros Heq. destruct (C1 m Hm) as (_ & (et & T1 & T2 & _)). rewrite <- Heq in T1. congruence. }
-    destruct k; cbn [fst snd]; intros _ Hd;
+    destruct k; cbn [fst snd]; intros Hd;
       [apply Hgo; discriminate|apply Hgo; discriminate|apply Hgo; discriminate|cbn in Hd; discriminate].
   - (* BEGIN *)
     destruct (w_open w) eqn:Ho; [cbn; intros; exact HWI|].
     destruct ((algo <? 0) || (2 <? algo)); [cbn; intros; exact HWI|].
-    cbv zeta. cbn [fst snd]. intros _ _. constructor; cbn [w_st w_ctx w_open]; auto.
+    cbv zeta. cbn [fst snd]. intros _. constructor; cbn [w_st w_ctx w_open]; auto.
     intros c Hc. injection Hc as <-.
     assert (Hini : forall c0, 0 <= c_immovable (ctx_init c0 algo) /\ (false = false -> c_moves (ctx_init c0 algo) = []) /\
                      (false = true -> Forall (reserved (w_st w)) (c_moves (ctx_init c0 algo)) /\
@@ -2830,7 +2943,7 @@ Proof.
     pose proof (collect_reserves _ _ _ _ HW Hma Hmb B) as Hres. rewrite Hcol in Hres. cbn [fst] in Hres.
     pose proof (sources_are_user_allocs_once _ _ _ _ HW Hma Hmb B) as Hsrc. rewrite Hcol in Hsrc. cbn [fst] in Hsrc.
     destruct Hres as (HWc & _ & Hres). destruct Hsrc as (_ & N1 & N2 & N3).
-    destruct r; cbn [fst snd]; intros _ Hd; try (cbn in Hd; discriminate).
+    destruct r; cbn [fst snd]; intros Hd; try (cbn in Hd; discriminate).
     all: constructor; cbn [w_st w_ctx w_open]; auto.
     all: intros c' Hc'; injection Hc' as <-; cbn [c_immovable c_moves]; split; [exact A|]; split; [discriminate|]; intros _; split; [exact Hres|].
     all: apply NoDup_app_intro; auto; intros x Hx1 Hx2; apply in_map_iff in Hx1; destruct Hx1 as (m1 & <- & H1);
@@ -2840,16 +2953,15 @@ Proof.
     destruct (w_pass w) as [p|]; [|cbn; intros; exact HWI].
     destruct (w_open w) eqn:Ho; cbn [negb]; [|cbn; intros; exact HWI].
     destruct (Hctx c eq_refl) as (A & _ & C). destruct (C eq_refl) as (C1 & C2).
-    destruct (r_kind (complete_pass (w_st w) c p ds ord)) eqn:Hk; cbn [fst snd wout_ok]; intros Hout Hd;
-      try tauto; try (cbn in Hd; discriminate).
-    destruct (complete_pass_wf _ _ _ _ _ HW C1 C2 Hk) as (HW' & _ & _ & _ & Hmv).
+    rewrite (complete_pass_ok _ _ p ds ord HW C1 C2). cbn [fst snd]. intros Hd.
+    destruct (complete_pass_wf _ _ p ds ord HW C1 C2) as (HW' & _ & _ & _ & Hmv).
     constructor; cbn [w_st w_ctx w_open]; auto.
     intros c' Hc'. injection Hc' as <-. split; [pose proof (complete_pass_immovable (w_st w) c p ds ord); lia|].
     split; [intros _; exact Hmv|discriminate].
   - cbn. intros. exact HWI.
 Qed.
 
-Lemma world_init_inv sizes sentinel : Forall (fun s => 0 <= s) sizes -> WInv (world_init sizes sentinel).
+Lemma world_init_inv sizes sentinel : Forall (fun s => 1 <= s < 2 ^ 39) sizes -> WInv (world_init sizes sentinel).
 Proof.
   intros Hs. constructor; cbn; [|discriminate].
   assert (Hfind : forall a l id t, find_id id (map (fun q => (fst q, tlsf_init HFake 1 (snd q))) (indexed_from a l)) = Some t ->
@@ -2864,10 +2976,26 @@ Proof.
       inversion Hs; subst. constructor; [|apply IH; auto].
       intros Hin. apply in_map_iff in Hin. destruct Hin as ([i s] & E & Hin). cbn in E. subst i. apply indexed_from_in in Hin. lia.
     + intros id t Hf. apply Hfind in Hf. destruct Hf as (s & Hin & ->). rewrite Forall_forall in Hs.
-      split; [apply init_TInv; split; [apply Hs; exact Hin|apply pow2_1]|reflexivity].
+      specialize (Hs _ Hin). cbv beta in Hs.
+      split; [apply init_TInv; split; [lia|apply pow2_1]|]. split; [reflexivity|apply init_inv2; exact Hs].
   - intros s e He. unfold entry in He. cbn in He. destruct s; discriminate.
   - intros id off b (t & Hf & Hin & _). apply Hfind in Hf. destruct Hf as (s & _ & ->). cbn in Hin. destruct Hin.
   - intros s1 s2 e1 e2 He. unfold entry in He. cbn in He. destruct s1; discriminate.
+Qed.
+
+Lemma dstate_init_wf sizes sentinel : Forall (fun s => 1 <= s < 2 ^ 39) sizes -> WF (dstate_init sizes sentinel).
+Proof. intros H. exact (wi_wf _ (world_init_inv sizes sentinel H)). Qed.
+
+Lemma user_alloc_fst_wf st id size align kind tag : WF st -> WF (fst (user_alloc st id size align kind tag)).
+Proof.
+  intros HW. destruct (user_alloc st id size align kind tag) as [st' r] eqn:E.
+  exact (proj1 (user_alloc_wf _ _ _ _ _ _ _ _ HW E)).
+Qed.
+
+Lemma free_slot_fst_wf st s : WF st -> WF (fst (free_slot st s)).
+Proof.
+  intros HW. destruct (free_slot st s) as [st' k] eqn:E. cbn [fst].
+  destruct k; [exact (proj1 (free_slot_ok _ _ _ HW E))| | |]; rewrite (free_slot_fail _ _ _ _ E); auto; discriminate.
 Qed.
 
 (* ================================================================== non-vacuity: a concrete run *)
@@ -2888,7 +3016,19 @@ Lemma ex_run_done :
   end.
 Proof. vm_compute. auto. Qed.
 
-(* ================================================================== findings reproduced on the model *)
+Lemma ex_world_wf : WF ex_world.
+Proof.
+  unfold ex_world. repeat apply free_slot_fst_wf. repeat apply user_alloc_fst_wf.
+  apply dstate_init_wf. repeat constructor; lia.
+Qed.
+
+(* the first pass on ex_world proposes three moves (used as non-vacuity witness of the C07/C15 statements) *)
+Lemma ex_collect_three :
+  length (cs_moves (fst (collect_moves ex_world (ctx_init (mkC 0 [] 0) 2) (pass_init max_int max_int)))) = 3%nat /\
+  snd (collect_moves ex_world (ctx_init (mkC 0 [] 0) 2) (pass_init max_int max_int)) = WCont.
+Proof. vm_compute. auto. Qed.
+
+(* ================================================================== the repaired findings, observations *)
 
 (* C15: a context object that is reused for another run (Init called again) behaves like a fresh
    one.  Init (after the repair: c.moves = c.moves[:0]; c.immovableBlockCount = 0) leaves in
@@ -2957,14 +3097,18 @@ Proof. vm_compute. auto. Qed.
 
 (* ------------------------------------------------------------------
    OPEN (not proved here):
-   - fuel sufficiency of walk_block (walk_fuel = 2 * #allocation objects + 2 always suffices):
-     validated by the differential runs only (an exhausted fuel prints `R panic`).
-   - absence of metadata panics and handler failures (WPanic PMeta; handler RPanic/RError): they
-     depend on the TLSF free-list invariant (Inv2 of the newer TLSF files), which this file does
-     not use: it rests on the geometry layer (Inv1 / TlsfStep.step_preserves) only.  All theorems
-     are therefore stated for the outcomes the model actually returns: the collect theorems hold
-     for the state a panicking collect leaves behind, the complete_pass theorems assume
-     r_kind = ROk, run_terminates counts RunFailed as an end of the run.
+   - a collecting pass never panics: WPanic PCounters is excluded (collect_within_limits), the
+     handler side is closed (complete_pass_ok: every Free / SetAllocationUserData the handler
+     issues succeeds, by the second TLSF invariant Inv2 which WF now carries for every block).
+     Still open on the collect side: (1) WPanic PMeta is unreachable (the ingredients are here:
+     alloc_in_spec / alloc_lower_spec exclude AIPanic, get_move_data on a live handle resolves;
+     what is missing is threading "h is a live handle of the block" through the walk lemmas);
+     (2) fuel sufficiency of walk_block (walk_fuel = 2 * #allocation objects + 2 always
+     suffices: each visit is a distinct allocation object of the block and a pass at most adds
+     one temporary per source).  Both are validated by the differential runs only (an exhausted
+     fuel or a metadata panic would print `R panic`).  Therefore run_terminates / one_pass still
+     have the outcome RunFailed / None for a collect that panics; a completing pass can no longer
+     fail.
    ------------------------------------------------------------------ *)
 
 Print Assumptions collect_within_limits.
@@ -2974,6 +3118,7 @@ Print Assumptions both_ends_reserved.
 Print Assumptions stats_match.
 Print Assumptions move_outcome.
 Print Assumptions complete_pass_wf.
+Print Assumptions complete_pass_ok.
 Print Assumptions run_terminates_copy_only.
 Print Assumptions run_terminates.
 Print Assumptions run_stats_accumulate.
